@@ -923,6 +923,10 @@ fn lathe_case(max_sectors: u32) -> BoxedStrategy<Solid> {
         2 => (-1.0f32..1.0).prop_map(|s| ((s * 64.0).round() / 64.0, (s * 64.0).round() / 64.0 + 1.0)),
         2 => ((-1.0f32..1.0), prop_oneof![Just(0.25f32), Just(0.5), Just(0.75)]).prop_map(|(s, w)| (s, s + w)),
         3 => ((-1.0f32..1.0), 0.05f32..0.999).prop_map(|(s, w)| (s, s + w)),
+        // partial ranges with a "round" end point: ending exactly at one turn (or 0, or 2 turns) without starting at
+        // the matching round value, starting exactly at 0 / 1
+        2 => (prop_oneof![Just(1.0f32), Just(0.0f32), Just(2.0f32), Just(-1.0f32), Just(0.5f32)], prop_oneof![Just(0.25f32), Just(0.5f32), Just(0.75f32), Just(0.125f32), 0.05f32..0.95]).prop_map(|(e, w)| (e - w, e)),
+        1 => (prop_oneof![Just(0.0f32), Just(1.0f32), Just(-1.0f32)], prop_oneof![Just(0.25f32), Just(0.5f32), Just(0.75f32), 0.05f32..0.95]).prop_map(|(st, w)| (st, st + w)),
     ];
     let nlen = prop_oneof![3 => Just(1.0f32), 1 => Just(0.1f32), 1 => Just(10.0f32), 2 => 0.2f32..5.0];
     (
